@@ -50,3 +50,42 @@ Proof.
   split; [rewrite Hcomb; reflexivity | exact Hcomb].
 Qed.
 Print Assumptions C11_code_forms_agree.
+
+(* ---- matrix_compression.py AS TRANSLATED (Gen/G_matrix_compression.v; equivalence with the model: Proofs/GenEquivMC.v).
+   np.triu_indices is rendered by its specification; `np_sqrt_int` is NumPy's float square root, assumed exact on the perfect
+   squares (2n+1)^2 that occur (true below 2^53). ---- *)
+From Coq Require Import QArith.
+From Ticc Require Import Gen.G_matrix_compression Proofs.GenEquivMC.
+
+Theorem C11_code_compress_is_model : forall (F : Type) (n : nat) (M : nat -> nat -> F),
+  g_compress_matrix F (mk_arr2 (Z.of_nat n) (Z.of_nat n) (matrix_rows n M)) = Ret (compress n M).
+Proof. intros F n M. exact (g_compress_matrix_eq F (fun a _ => a) (fun a _ => a) n M). Qed.
+Print Assumptions C11_code_compress_is_model.
+
+Theorem C11_code_reinflate_is_model : forall (F : Type) (f0 : F) (fadd fsub : F -> F -> F) (np_sqrt_int : Z -> Q),
+  (forall k : Z, (0 <= k)%Z -> np_sqrt_int (k * k)%Z = inject_Z k) ->
+  forall (n : nat) (v : list F), length v = (n * (n + 1) / 2)%nat ->
+  g_reinflate_matrix F f0 fadd fsub np_sqrt_int v
+  = Ret (mk_arr2 (Z.of_nat n) (Z.of_nat n) (matrix_rows n (reinflate f0 fadd fsub v))).
+Proof. exact g_reinflate_matrix_eq. Qed.
+Print Assumptions C11_code_reinflate_is_model.
+
+(* hence, for the code as translated and every carrier satisfying  (x + 0) - 0 = x,  (0 + x) - 0 = x,  (x + x) - x = x
+   (R; binary64 except for -0 and overflow, Properties/C11fl.v):  re-inflating any vector of length n(n+1)/2 and compressing
+   the result returns the vector, for EVERY n *)
+Theorem C11_code_reinflate_then_compress : forall (F : Type) (f0 : F) (fadd fsub : F -> F -> F) (np_sqrt_int : Z -> Q),
+  (forall x, fsub (fadd x f0) f0 = x) -> (forall x, fsub (fadd f0 x) f0 = x) -> (forall x, fsub (fadd x x) x = x) ->
+  (forall k : Z, (0 <= k)%Z -> np_sqrt_int (k * k)%Z = inject_Z k) ->
+  forall (n : nat) (v : list F), length v = (n * (n + 1) / 2)%nat ->
+  exists full : arr2 F,
+    g_reinflate_matrix F f0 fadd fsub np_sqrt_int v = Ret full /\
+    a_rows full = Z.of_nat n /\ a_cols full = Z.of_nat n /\
+    g_compress_matrix F full = Ret v.
+Proof.
+  intros F f0 fadd fsub sq L1 L2 L3 Hsq n v Hlen.
+  exists (mk_arr2 (Z.of_nat n) (Z.of_nat n) (matrix_rows n (reinflate f0 fadd fsub v))).
+  split; [apply g_reinflate_matrix_eq; assumption|].
+  split; [reflexivity|]. split; [reflexivity|].
+  rewrite (g_compress_matrix_eq F fadd fsub). f_equal. apply (compress_reinflate f0 fadd fsub L1 L2 L3). exact Hlen.
+Qed.
+Print Assumptions C11_code_reinflate_then_compress.
